@@ -69,7 +69,7 @@ def describe(parser, errors_pass):
             positionals.append("remainder" if a.nargs == argparse.REMAINDER else "other")
     pos = "remainder" if positionals == ["remainder"] else "other"
     return dict(opts=opts, pos=pos, errors_pass=errors_pass, allow_abbrev=parser.allow_abbrev,
-                prefix_chars=parser.prefix_chars)
+                prefix_chars=parser.prefix_chars, plain=(parser.prefix_chars == "-" and not parser.fromfile_prefix_chars))
 
 
 def lean_str(s):
@@ -92,7 +92,8 @@ def lean_table(t):
                     f"const := {lean_str(o['const'])}, choices := [" + ", ".join(lean_str(c) for c in o["choices"]) + "], "
                     f"isInt := {'true' if o['is_int'] else 'false'}, excl := {'true' if o['excl'] else 'false'} }}")
     return ("{ opts := [\n      " + ",\n      ".join(opts) + "],\n    pos := ." + t["pos"] +
-            f", errorsPass := {'true' if t['errors_pass'] else 'false'}, allowAbbrev := {'true' if t['allow_abbrev'] else 'false'} }}")
+            f", errorsPass := {'true' if t['errors_pass'] else 'false'}, allowAbbrev := {'true' if t['allow_abbrev'] else 'false'}"
+            f", plainArgs := {'true' if t['plain'] else 'false'} }}")
 
 
 def generate():
